@@ -344,6 +344,13 @@ def gate_sequences(cfgname, rng, quick):
     for _ in range(300 if quick else 3000):
         n = rng.randrange(2, 9)
         seqs.append([rng.choice(full) for _ in range(n)])
+    # capability negotiation cores, exhaustively: each CAP sub-command at each position relative to NICK and USER, with
+    # and without the closing CAP END (any CAP LS/REQ - accepted or refused - holds registration back until CAP END)
+    spw = CONFIGS[cfgname][0]
+    for capsym in ("CAP LS 302", "CAP REQ :multi-prefix", "CAP REQ :bogus", "CAP LIST", "CAP REQ :multi-prefix bogus"):
+        for perm in itertools.permutations([capsym, "NICK gate1", "USER plain 0 * :P"]):
+            for end in ([], ["CAP END"], ["JOIN #o", "CAP END"]):
+                seqs.append((["PASS " + spw] if spw else []) + list(perm) + end)
     # every gated verb once on a fresh connection and once just before completion
     for g in GATED:
         seqs.append([g])
